@@ -82,8 +82,13 @@ def gen_requests(rng, files, n):
     # every file once in full (the cache-by-wrong-key class needs same-named files to be requested)
     for p in paths:
         add('get-file', req('GET', p, hdrs()), path=p)
-    for b in ['/', '/style.css', '/script.js', '/favicon.svg', '/sub/', '/sub', '/emptydir', '/link.txt']:
+    for b in ['/', '/style.css', '/script.js', '/favicon.svg', '/sub/', '/sub', '/emptydir', '/link.txt', '/a/alias.txt', '/a/across.txt', '/sub/deep/up.html']:
         add('get-builtin-or-dir', req('GET', b, hdrs()))
+    # links asked for with ranges that cannot be satisfied, with wrong units, with ranges that can: an error path that leaves
+    # something process-wide behind (a working directory, a lock, a flag) shows in the answers to everybody else
+    for lk in ['/link.txt', '/a/alias.txt', '/a/across.txt', '/sub/deep/up.html']:
+        for spec in ['bytes=0-9999999', 'bytes=9999999-', 'bits=0-1', 'bytes=5-1', 'bytes=0-0', 'bytes=0-0,2-3', 'bytes=a-b']:
+            add('link-range', req('GET', lk, hdrs([('Range', spec)])))
     # preflights that agree in Origin and requested method and differ only in the requested headers
     # (anything memoised per origin/method shows as cross-talk between them)
     for i in range(10):
